@@ -42,6 +42,9 @@ def check(repo, col, tier):
     _length(repo, col, fi, ex)
     _rows(repo, col, fi, ex)
     _reinit(repo, col, fi, ex)
+    col.rule("R-C13-iter", "branches are handed out one at a time, so set_ncomp inside a loop over branches sees current rows", 2)
+    from . import c11
+    c11.lazy_iteration(repo, col, "R-C13-iter")
 
 
 def relabel(repo, col, R):
@@ -61,7 +64,7 @@ def relabel(repo, col, R):
             (s.kind == "attr" and s.key.name == a and s.base.op == "attr" and s.base.name == "base") for a in attrs)
             for s in ex.stores)
         if rewritten and not guarded:
-            _partition(col, R, fi, reg)
+            _partition(col, R, fi, reg, repo)
         col.check(guarded or rewritten, R, fi, f"set_ncomp: registry `{reg}` (stores node row labels)",
                   "asserted empty before the rows are renumbered" if guarded else "rewritten after the renumbering",
                   f"set_ncomp renumbers the node rows but neither refuses a non-empty `{reg}` nor rewrites it: its stored row "
@@ -69,28 +72,56 @@ def relabel(repo, col, R):
                   f"branch(0).set_ncomp(4))", node=st_nodes.node)
 
 
-def _partition(col, R, fi, reg):
-    """The rewrite splits the stored labels into before / inside / after the resized branch; the comparisons against
-    the two boundaries must partition the index line (no label is both or neither)."""
-    cmps = {}
-    for n in ast.walk(fi.node):
-        if isinstance(n, ast.Compare) and len(n.ops) == 1 and isinstance(n.comparators[0], ast.Name) and \
-                isinstance(n.ops[0], (ast.Lt, ast.LtE, ast.Gt, ast.GtE)):
-            cmps.setdefault((unparse(n.left), n.comparators[0].id), []).append(n)
-    found = 0
-    for (left, bound), lst in cmps.items():
-        ops = {type(c.ops[0]).__name__ for c in lst}
-        if len(lst) < 2 or not (ops & {"Lt", "LtE"}) or not (ops & {"Gt", "GtE"}):
-            continue
-        found += 1
-        ok = ops in ({"Lt", "GtE"}, {"LtE", "Gt"})
-        col.check(ok, R, fi, f"set_ncomp: rewrite of `{reg}`: `{left}` is split at `{bound}` without gap or overlap",
-                  f"{sorted(ops)}",
-                  f"`{left}` is compared with `{bound}` using {sorted(ops)}: a stored label equal to `{bound}` is "
-                  f"{'neither inside nor after the resized branch and keeps its old number' if ops == {'Lt', 'Gt'} else 'treated as both'}"
-                  f" (the first compartment of the following branch ends up in the wrong branch)", node=lst[-1])
-    if not found:
-        col.unk(R, fi, f"set_ncomp: rewrite of `{reg}`", "no before/inside/after split of the stored labels found", node=fi.node)
+def _partition(col, R, fi, reg, repo=None):
+    """The rewrite of a registry of row labels distinguishes labels before / inside / after the resized branch
+    [start, end).  Whatever form it takes (masks and a global shift, or slices that are concatenated), every
+    comparison of a stored label x with a boundary b must be `x < b` or `x >= b` (half-open ranges): `x > b` or `x <= b`
+    puts the label equal to the boundary on the wrong side (the first compartment of the following branch keeps its old
+    number).  The values written must be computed from the REQUESTED number of compartments of the resized branch
+    (the parameter), not from a quantity derived later (the maximum over all branches)."""
+    ex = idx.expander(repo, fi)
+    sts = [s_ for s_ in ex.stores if s_.kind == "sub" and s_.base.op == "attr" and s_.base.name == reg and
+           s_.base.args[0].op == "attr" and s_.base.args[0].name == "base"]
+    if not sts:
+        col.unk(R, fi, f"set_ncomp: rewrite of `{reg}`", "store into the registry not found", node=fi.node)
+        return
+    st = sts[-1]
+    terms = [st.value] + list(st.guards)
+    # lists extended under a condition (parts.append(...)) belong to the value too
+    for s_ in ex.stores:
+        if s_.kind == "mcall" and s_.key.name in ("append", "extend") and s_.value is not None:
+            terms += [s_.value] + list(s_.guards)
+    is_label = lambda t: T.find(t, lambda y: y.op == "attr" and y.name == reg) is not None
+    seen, n_cmp, bad = set(), 0, []
+    for t_ in terms:
+        for x in t_.walk():
+            if x.op == "cmp" and x.name in ("<", "<=", ">", ">=") and len(x.args) == 2 and x.key() not in seen:
+                seen.add(x.key())
+                l, r = is_label(x.args[0]), is_label(x.args[1])
+                if l == r:
+                    continue
+                n_cmp += 1
+                op = x.name if l else {"<": ">", ">": "<", "<=": ">=", ">=": "<="}[x.name]
+                if op not in ("<", ">="):
+                    bad.append((x, op))
+    if n_cmp < 2:
+        col.unk(R, fi, f"set_ncomp: rewrite of `{reg}`", "no before/inside/after split of the stored labels found", node=st.node)
+    else:
+        col.check(not bad, R, fi, f"set_ncomp: rewrite of `{reg}`: stored labels are split at the branch boundaries without gap or overlap",
+                  f"{n_cmp} comparisons, all `label < boundary` or `label >= boundary`",
+                  f"`{bad[0][0].short(70) if bad else ''}` compares a stored label with a boundary using `{bad[0][1] if bad else ''}`: the label equal to "
+                  f"the boundary is put on the wrong side (the first compartment of the following branch keeps its old number / is "
+                  f"treated as part of the resized branch)", node=st.node)
+    vals = [st.value] + [s_.value for s_ in ex.stores if s_.kind == "mcall" and s_.key.name in ("append", "extend") and s_.value is not None]
+    uses_param = any(T.find(v, lambda y: y.op == "param" and y.name == "ncomp") is not None for v in vals)
+    uses_max = next((T.find(v, lambda y: y.op == "mcall" and y.name in ("max", "amax") and
+                            T.find(y, lambda z: z.op in ("name", "phi", "sub", "attr") and "ncomp_per_branch" in z.pretty()) is not None)
+                     for v in vals if T.find(v, lambda y: y.op == "mcall" and y.name in ("max", "amax")) is not None), None)
+    col.check(uses_param and uses_max is None, R, fi,
+              f"set_ncomp: rewrite of `{reg}` uses the requested compartment count of the resized branch", "param ncomp",
+              f"the new labels are computed from {'`' + uses_max.short(50) + '`' if uses_max is not None else 'something else than the requested ncomp'}: "
+              f"the local `ncomp` was rebound (maximum over all branches) before the registry is rewritten, so labels are shifted by the "
+              f"wrong amount whenever the resized branch is not the longest", node=st.node)
 
 
 def _length(repo, col, fi, ex):
